@@ -48,7 +48,8 @@ ASSUMPTIONS = [
     "with the documented InsufficientResourceError: over-conservative, not "
     "infeasible, so it is outside the success clause and not reported)",
 ]
-FLOORS = {"feasibility_checked": 300, "easy_must_succeed": 100,
+FLOORS = {"temperature_callback_placement": 200, "stopped_by_callback": 20,
+          "feasibility_checked": 300, "easy_must_succeed": 100,
           "kernel_quiescent_invariant": 200, "c_kernel_under_asan": 20,
           "documented_error": 20}
 ANCHORS = [("rig.place_and_route.place.sa.python_kernel", "_step",
@@ -66,7 +67,7 @@ MAX_RUN_STEPS = 20000
 PLACERS = ["sequential", "breadth_first", "hilbert", "rcm", "rand", "sa-py",
            "sa-c"]
 CLASSES = ["easy", "general", "tight", "infeasible", "groups", "tiny",
-           "deadloc", "sa_tight"]
+           "deadloc", "sa_tight", "alldead"]
 
 _asan = {}
 
@@ -100,6 +101,18 @@ def gen(cls, idx, rng, tier):
     easy = cls == "easy"
     if cls == "sa_tight":
         return gen_sa_tight(rng, idx)
+    if cls == "alldead":
+        m = par.gen_machine(rng, max_w=3, max_h=3, p_dead=0)
+        m["dead_chips"] = [(x, y) for x in range(m["w"])
+                           for y in range(m["h"])]
+        m["exc"] = {}
+        nv = rng.randint(0, 3)
+        vs = [(i, {"Cores": 1}) for i in range(nv)]
+        placer = PLACERS[idx % len(PLACERS)]
+        kw = dict(effort=0.1, seed=1) if placer.startswith("sa-") else \
+            dict(seed=1) if placer == "rand" else {}
+        return dict(machine=m, vertices=vs, nets=[(0, [0], 1)] if nv else [],
+                    constraints=[], placer=placer, kw=kw, easy=False)
     if cls == "tiny":
         m = par.gen_machine(rng, max_w=2, max_h=2, p_dead=.2)
     elif easy:
@@ -183,7 +196,8 @@ def gen(cls, idx, rng, tier):
     if placer in ("sa-py", "sa-c"):
         kw = dict(effort=rng.choice([0, 0.01, 0.1] if placer == "sa-py"
                                     else [0, 0.1, 1.0]),
-                  seed=rng.randrange(1 << 30))
+                  seed=rng.randrange(1 << 30),
+                  stop_after=rng.choice([None, None, 1, 3, 10]))
     elif placer == "rand":
         kw = dict(seed=rng.randrange(1 << 30))
     elif placer == "sequential" and rng.random() < .6:
@@ -238,7 +252,8 @@ def gen_sa_tight(rng, idx):
     placer = "sa-py" if idx % 2 else "sa-c"
     kw = dict(effort=rng.choice([0.05, 0.1, 0.3] if placer == "sa-py"
                                 else [0.3, 1.0, 3.0]),
-              seed=rng.randrange(1 << 30))
+              seed=rng.randrange(1 << 30),
+              stop_after=rng.choice([None, 2, 5]))
     return dict(machine=m, vertices=vertices, nets=nets, constraints=cons,
                 placer=placer, kw=kw, easy=False)
 
@@ -372,8 +387,24 @@ def run(case, ctx):
             k = imp("rig.place_and_route.place.sa.c_kernel").CKernel
             if _asan.get("on"):
                 ctx.hit("c_kernel_under_asan")
+        stop_after = kw.get("stop_after")
+
+        def on_temperature_change(iteration_count, placements, cost,
+                                  acceptance_rate, temperature,
+                                  distance_limit):
+            # documented callback: the placement shown to the user at every
+            # temperature step must itself be complete and feasible
+            stats["temperature_steps"] += 1
+            ctx.hit("temperature_callback_placement")
+            judge_placement(placements, "%s (placement passed to "
+                            "on_temperature_change #%d)" %
+                            (placer, stats["temperature_steps"]))
+            if stop_after and stats["temperature_steps"] >= stop_after:
+                stats["stopped"] = 1
+                return False
         kw = dict(effort=kw["effort"], random=_random.Random(kw["seed"]),
-                  kernel=monitored(k, ctx, stats, placer))
+                  kernel=monitored(k, ctx, stats, placer),
+                  on_temperature_change=on_temperature_change)
     elif placer == "rand":
         fn = imp("rig.place_and_route.place.rand").place
         kw = dict(random=_random.Random(kw["seed"]))
@@ -385,6 +416,37 @@ def run(case, ctx):
         "%s=%r" % (k_, v) for k_, v in case["kw"].items()
         if k_ not in ("vertex_order", "chip_order")))
     easy_ok = must_succeed(case)
+
+    def judge_placement(pl, what_):
+        check(isinstance(pl, dict) and set(pl) == set(names), "vertex-set",
+              "%s: placement covers %d vertices, problem has %d (missing %r, "
+              "extra %r)" % (what_, len(pl), len(names),
+                             sorted(set(names) - set(pl), key=repr)[:4],
+                             sorted(set(pl) - set(names), key=repr)[:4]))
+        live = set(par.live_chips(m))
+        use = collections.defaultdict(collections.Counter)
+        for v, xy in pl.items():
+            check(isinstance(xy, tuple) and xy in live, "not-a-working-chip",
+                  "%s: %r placed on %r" % (what_, v, xy))
+            for r, q in need[v].items():
+                use[xy][r] += q
+        for xy, u in use.items():
+            cap = par.capacity(m, cons, xy)
+            for r, q in u.items():
+                check(q <= cap[r], "chip-over-capacity",
+                      "%s: chip %r: vertices need %d of %r, %d available after "
+                      "reservations" % (what_, xy, q, r, cap[r]),
+                      on_chip=[v for v in pl if pl[v] == xy][:8])
+        for c in cons:
+            if c[0] == "loc":
+                check(pl[c[1]] == tuple(c[2]), "location-ignored",
+                      "%s: %r constrained to %r, placed on %r" %
+                      (what_, c[1], c[2], pl[c[1]]))
+        for g in groups_of(names, cons):
+            check(len({pl[v] for v in g}) == 1, "same-chip-ignored",
+                  "%s: group %r placed on %r" % (what_, g,
+                                                sorted({pl[v] for v in g})))
+
     try:
         pl = fn(vr, nets, machine, constraints, **kw)
     except (exc.InsufficientResourceError, exc.InvalidConstraintError) as e:
@@ -401,34 +463,10 @@ def run(case, ctx):
     if easy_ok:
         ctx.hit("easy_must_succeed")
     ctx.hit("feasibility_checked")
-    check(isinstance(pl, dict) and set(pl) == set(names), "vertex-set",
-          "%s: placement covers %d vertices, problem has %d (missing %r, "
-          "extra %r)" % (what, len(pl), len(names),
-                         sorted(set(names) - set(pl), key=repr)[:4],
-                         sorted(set(pl) - set(names), key=repr)[:4]))
+    judge_placement(pl, what)
+    if stats.get("stopped"):
+        ctx.hit("stopped_by_callback")
     live = set(par.live_chips(m))
-    use = collections.defaultdict(collections.Counter)
-    for v, xy in pl.items():
-        check(isinstance(xy, tuple) and xy in live, "not-a-working-chip",
-              "%s: %r placed on %r" % (what, v, xy))
-        for r, q in need[v].items():
-            use[xy][r] += q
-    for xy, u in use.items():
-        cap = par.capacity(m, cons, xy)
-        for r, q in u.items():
-            check(q <= cap[r], "chip-over-capacity",
-                  "%s: chip %r: vertices need %d of %r, %d available after "
-                  "reservations" % (what, xy, q, r, cap[r]),
-                  on_chip=[v for v in pl if pl[v] == xy][:8])
-    for c in cons:
-        if c[0] == "loc":
-            check(pl[c[1]] == tuple(c[2]), "location-ignored",
-                  "%s: %r constrained to %r, placed on %r" %
-                  (what, c[1], c[2], pl[c[1]]))
-    for g in groups_of(names, cons):
-        check(len({pl[v] for v in g}) == 1, "same-chip-ignored",
-              "%s: group %r placed on %r" % (what, g,
-                                            sorted({pl[v] for v in g})))
     if (len(names) >= 3 and len(live) >= 2 and
             (cons or m.get("exc"))):
         ctx.mark_nontrivial()
